@@ -40,7 +40,7 @@ var _ *openfgav1.Userset
 //@   forall k string :: wg.nodes[k] != nil ==> wg.nodes[k].uniqueLabel == k
 
 //@ func (*WeightedAuthorizationModelGraph).GetOrAddNode
-//@   props C10 C11
+//@   props C10 C11 C04
 //@   requires wg != nil && wg.nodes != nil
 //@   requires wildcard_label: nodeType == SpecificTypeWildcard ==> len(uniqueLabel) >= 2
 //@   -- (callers assume every clause at every call, so the set is kept small and non-redundant)
@@ -87,7 +87,7 @@ var _ *openfgav1.Userset
 //@ spec sepCondsN() bool = forall e *WeightedAuthorizationModelEdge, n *WeightedAuthorizationModelNode :: allocated(e) && allocated(n) && arr(e.conditions) != 0 ==> arr(e.conditions) != arr(n.wildcards)
 
 //@ func (*WeightedAuthorizationModelGraph).AddEdge
-//@   props C10 C11
+//@   props C10 C11 C04
 //@   opaque_strings
 //@   requires wg != nil && wg.edges != nil
 //@   -- exactly one edge is appended to the list of fromID
@@ -116,7 +116,7 @@ var _ *openfgav1.Userset
 //@   forall i int :: 0 <= i && i < len(es) ==> es[i] != nil && es[i].to != nil
 
 //@ func (*WeightedAuthorizationModelGraph).HasEdge
-//@   props C10 C13
+//@   props C10 C13 C04
 //@   opaque_strings
 //@   readonly
 //@   requires wg != nil
@@ -142,7 +142,7 @@ var _ *openfgav1.Userset
 //@   && (forall j int :: 0 <= j && j < i ==> !sameEdge(es[j], toLabel, edgeType, tuplesetRelation))
 
 //@ func (*WeightedAuthorizationModelGraph).UpsertEdge
-//@   props C10 C05 C11
+//@   props C10 C05 C11 C04
 //@   opaque_strings
 //@   requires wg != nil && wg.edges != nil
 //@   requires fromNode != nil ==> wfEdgeList(wg.edges[fromNode.uniqueLabel])
@@ -202,7 +202,7 @@ var _ *openfgav1.Userset
 // label; wfEdgeList/wfAllEdges - every edge in a list exists and has a target node. Heavy invariants are stated as `old(I) ==> I`
 // so that only the obligations that need them pay for them; see NOTES.md for what is carried through which function.
 //@ func (*WeightedAuthorizationModelGraphBuilder).parseComputed
-//@   props C10 C11 C13
+//@   props C10 C11 C13 C04
 //@   requires wg != nil && wg.nodes != nil && wg.edges != nil && wfNodes(wg)
 //@   requires parent_in_graph: parentNode != nil && wg.nodes[parentNode.uniqueLabel] == parentNode
 //@   -- exactly one edge is appended to the parent's list, whatever the list already contains
@@ -741,7 +741,7 @@ var _ *openfgav1.Userset
 //@   && (is(u.GetUserset(), *openfgav1.Userset_Difference) ==> dyn(u.GetUserset(), *openfgav1.Userset_Difference) != nil && u.GetDifference() != nil)
 
 //@ func (*WeightedAuthorizationModelGraphBuilder).parseRewrite
-//@   props C10 C05 C13
+//@   props C10 C05 C13 C04
 //@   decreases rwHeight(rewrite)
 //@   requires wg != nil && wg.nodes != nil && wg.edges != nil && wfNodes(wg)
 //@   requires parent_in_graph: parentNode != nil && wg.nodes[parentNode.uniqueLabel] == parentNode
